@@ -230,6 +230,47 @@ def check_then_act(classes, progs, cls_name="M"):
     return out
 
 
+def atomic_programs(repo):
+    """Syntactic translator for the lock-free shared state of vls-core: every `Atomic*` struct field
+    and, per function, the atomic operations performed on it in source order.  A read-modify-write
+    (`fetch_*`, `swap`, `compare_exchange*`) is ONE event `Rmw`; `load` and `store` are the events
+    `Ld` and `St`.  Anything else on such a field is an error."""
+    import glob, re
+    root = os.path.join(repo, "vls-core", "src")
+    files = [f for f in glob.glob(os.path.join(root, "**", "*.rs"), recursive=True)
+             if "/test_utils/" not in f and not f.endswith("_tests.rs") and not f.endswith("verif_sync.rs")]
+    fields = {}
+    for f in files:
+        for m in re.finditer(r"^\s*(?:pub(?:\([a-z]+\))?\s+)?(\w+)\s*:\s*(Atomic\w+)\s*,", open(f).read(), flags=re.M):
+            fields[m.group(1)] = (m.group(2), os.path.relpath(f, repo))
+    progs = []
+    for f in files:
+        txt = open(f).read()
+        # cut the unit tests of the file off
+        cut = txt.find("#[cfg(test)]\nmod tests")
+        if cut >= 0:
+            txt = txt[:cut]
+        fns = [(m.start(), m.group(1)) for m in re.finditer(r"\bfn\s+(\w+)", txt)]
+        per = {}
+        for name in fields:
+            for m in re.finditer(r"\.%s\s*\.\s*(\w+)\s*\(" % re.escape(name), txt):
+                op = m.group(1)
+                fn = [n for pos, n in fns if pos < m.start()]
+                fn = fn[-1] if fn else "?"
+                if op.startswith("fetch_") or op in ("swap", "compare_exchange", "compare_exchange_weak", "compare_and_swap"):
+                    ev = "Rmw"
+                elif op == "load":
+                    ev = "Ld"
+                elif op == "store":
+                    ev = "St"
+                else:
+                    raise GenError("atomic field %s: operation %s in %s is not understood" % (name, op, f))
+                per.setdefault((name, fn), []).append(ev)
+        for (name, fn), ops in sorted(per.items()):
+            progs.append({"field": name, "type": fields[name][0], "function": fn, "file": os.path.relpath(f, repo), "ops": ops})
+    return {"fields": {k: {"type": v[0], "file": v[1]} for k, v in fields.items()}, "programs": progs}
+
+
 def coq_prog(p):
     names = {"A": "Acq", "R": "Rel", "T": "Touch"}
     return "[" + "; ".join("%s (%d, %d)" % (names[k], c, i) for k, c, i in p["events"]) + "]"
@@ -241,7 +282,7 @@ def write_coq(classes, progs, res, repo):
     L = []
     L.append("(** GENERATED by tools/gen_locks.py on every run from the lock programs recorded on the")
     L.append("    real code (%s, harness `locks record`).  Do not edit. *)" % repo)
-    L.append("From VLS Require Import Model.Locks.")
+    L.append("From VLS Require Import Model.Locks Model.Atomics.")
     L.append("From Coq Require Import String.")
     L.append("Open Scope N_scope.")
     L.append("")
@@ -280,6 +321,12 @@ def write_coq(classes, progs, res, repo):
     L.append("Definition known_witnesses : list (list program * list nat) := [%s]." % "; ".join(
         "([%s], [%s]%%nat)" % ("; ".join("p_" + n for n in w["requests"]), "; ".join(str(x) for x in w["schedule"]))
         for w in res.get("known_witnesses", [])))
+    L.append("")
+    at = res.get("atomics", {"programs": []})
+    L.append("(** the lock-free shared state (Atomic* fields of vls-core) and, per function, the atomic operations")
+    L.append("    on it in source order (tools/gen_locks.py atomic_programs): Rmw = one read-modify-write event *)")
+    L.append("Definition counter_progs : list (string * list aop) := [%s]." % "; ".join(
+        '("%s.%s"%%string, [%s])' % (a["field"], a["function"], "; ".join(a["ops"])) for a in at["programs"]))
     L.append("")
     L.append("(** class of the channel slots *)")
     slot = [c for c, v in classes.items() if v["name"] == "C"]
